@@ -194,12 +194,21 @@ EXPORT errno_t _wcstombs_s_chk(size_t *restrict retvalp, char *restrict dest,
     /* l is the strlen, excluding NULL */
     /* never let libc store more than dmax bytes */
     if (dest && len > dmax) {
-        /* a result of dmax bytes or more cannot be terminated inside dest */
-        size_t need = wcstombs(NULL, src, 0);
-        len = dmax;
-        l = *retvalp = wcstombs(dest, src, len);
-        if (l != (size_t)-1 && need != (size_t)-1 && need >= dmax) {
-            l = *retvalp = dmax;
+        /* Convert at most dmax bytes.  If that stops in front of a character
+           which the caller's len would still have admitted, the result does
+           not fit into dest. */
+        const wchar_t *sp = src;
+        mbstate_t st2;
+        memset(&st2, 0, sizeof(st2));
+        l = *retvalp = wcsrtombs(dest, &sp, dmax, &st2);
+        if (l != (size_t)-1 && l < dmax && sp != NULL) {
+            char tmp[MB_LEN_MAX];
+            size_t next = wcrtomb(tmp, *sp, &st2);
+            if (next == (size_t)-1) {
+                l = *retvalp = (size_t)-1;
+            } else if (l + next <= len) {
+                l = *retvalp = dmax;
+            }
         }
     } else {
         l = *retvalp = wcstombs(dest, src, len);
